@@ -134,6 +134,24 @@ DESC = {
  "D6-m1": "timer: delay() converts the Duration through f64 (about 4 % of whole-millisecond delays >= 1001 ms fire 1 ms early)",
  "D6-m2": "event: set() wakes in batches of 16, re-taking the lock per batch (threads + >= 17 waiters: a waiter registered after a reset is completed)",
  "D6-m3": "mutex: Debug prints the payload without holding the async mutex when is_locked() is false (threads only)",
+ "E1-m1": "mutex: a guard dropped while its holder unwinds from a panic does not wake the next waiter (std::thread::panicking())",
+ "E1-m2": "event: hidden waiter counter that is decremented twice when a woken-but-never-repolled future is dropped; set() returns early at 0",
+ "E1-m3": "unfair mutex: a notified waiter that lost to a barger re-queues in a second critical section without re-checking is_locked (threads only)",
+ "E2-m1": "semaphore: releaser Drop uses try_lock and parks its permits in an atomic when busy; folded in later without a wake-up pass (threads only)",
+ "E2-m2": "semaphore: cancelling a waiting request runs the wake-up pass only if it was the 'head', where head is taken from the wrong end of the queue",
+ "E2-m3": "unfair semaphore: a notified request with too few permits is re-dispatched through the first-poll path, which skips the wake-up pass",
+ "E3-m1": "mpmc: waker refresh compares only the data pointer (wakers that share the data pointer and differ in the vtable are never refreshed)",
+ "E3-m2": "mpmc: try_receive fast path reads two lock-free hint flags in the wrong order (torn read: Closed while a value is buffered; threads only)",
+ "E3-m3": "mpmc: first poll of a send future clones the waker outside the lock and re-validates only the capacity, not is_closed (threads only)",
+ "E4-m1": "state broadcast: try_receive fast path on a 'latest id' atomic that send() stores after the unlock (two sender clones; threads only)",
+ "E4-m2": "mpmc SharedStream::close(): discards the buffer when the stream holds the only receiver handle",
+ "E4-m3": "shared oneshot: send() swaps a private 'used' flag before taking the lock (a second thread's send is rejected while the channel is still open and empty)",
+ "E5-m1": "timer: check_expirations() peeks at the heap root without the lock and returns if it looks empty (threads only; the window is inside another thread's critical section)",
+ "E5-m2": "timer + heap: expired timers are drained in one batch in tree order instead of deadline order",
+ "E5-m3": "timer: check_expirations() stops after a 2 ms 'time budget' measured with the service clock (needs a clock that advances during the call)",
+ "E6-m1": "ArrayBuf::capacity() computed as size_of::<A>() / size_of::<T>() (wrong for a user RealArray with an alignment attribute)",
+ "E6-m2": "FixedHeapBuf::with_capacity reserves at most 1 MiB up front (larger buffers reallocate inside send)",
+ "E6-m3": "mpmc: try_receive peeks at the buffer without the lock (data race on a Send + !Sync user RingBuf; threads only)",
 }
 
 def first_sentence(meta):
